@@ -181,9 +181,11 @@ Proof.
     + (* JOIN needs a nickname: the session is logged in *)
       intros Hname s2 Hs2. rewrite Hs1 in Hs2. injection Hs2 as <-.
       destruct (s_server s1) eqn:Hsv; [cbn in Hname; discriminate|].
-      cbn [String.append] in Hname. rewrite Hname in Hreg0. cbn in Hreg0.
-      rewrite !andb_true_r in Hreg0. apply negb_false_iff in Hreg0.
-      pose proof (g_login _ _ G1 _ _ Hs1) as Hlb. unfold login_bit in Hlb. rewrite Hreg0 in Hlb. cbn in Hlb.
+      change (to_upper (m_cmd m) = "JOIN") in Hname.
+      assert (Hli1 : s_loggedIn s1 = true).
+      { destruct (s_loggedIn s1) eqn:Hl; [reflexivity|]. exfalso.
+        rewrite Hname in Hreg0. cbn in Hreg0. discriminate. }
+      pose proof (g_login _ _ G1 _ _ Hs1) as Hlb. unfold login_bit in Hlb. rewrite Hli1 in Hlb. cbn in Hlb.
       apply negb_true_iff, is_empty_false in Hlb. exact Hlb.
     + (* services handlers: the link is authenticated and the line conforms *)
       intros Hpre. destruct (s_server s1) eqn:Hsv.
@@ -197,5 +199,279 @@ Proof.
         unfold commands in Hcmd.
         repeat (destruct Hcmd as [Hcmd|Hcmd]; [injection Hcmd as Hc _ _; rewrite <- Hc in Hpre; cbn in Hpre; try discriminate|]);
           try contradiction.
-        all: admit.
-Admitted.
+        all: exfalso; cbn [String.append] in Hc; symmetry in Hc; revert Hc; apply to_upper_not_s.
+Qed.
+
+(* ---- MaybeDeleteSession, the other fields ------------------------------------------------------- *)
+Lemma InvM_restrict (sv : server) (sess' : gmap (N * N) session) :
+  InvM sv ->
+  (forall k s, sess' !! k = Some s -> sv_sessions sv !! k = Some s) ->
+  (forall k s, sv_sessions sv !! k = Some s -> s_deleted s = false -> sess' !! k = Some s) ->
+  InvM (set_sessions (fun _ => sess') sv).
+Proof.
+  intros I Hsub Hkeep. split; cbn [sv_sessions sv_nicks sv_channels set_sessions].
+  - intros k s Hs. eapply i_key; eauto.
+  - intros n k Hn. destruct (i_idx_sound sv I _ _ Hn) as (Hne & s & Hs & Hd & Hl). split; [exact Hne|].
+    exists s. auto.
+  - intros k s Hs. apply (i_idx_complete sv I k). auto.
+  - intros lc c n p Hc Hm. destruct (i_memb_c sv I _ _ _ _ Hc Hm) as (k & s & Hk & Hs & Hin).
+    destruct (i_idx_sound sv I _ _ Hk) as (_ & s2 & Hs2 & Hd2 & _). rewrite Hs in Hs2. injection Hs2 as <-.
+    exists k, s. auto.
+  - intros k s lc Hs. apply (i_memb_s sv I k). auto.
+  - apply (i_chan sv I).
+Qed.
+
+Lemma maybe_delete_session_ok (k : N * N) (sv : server) :
+  Fine k sv -> EInv (maybe_delete_session k sv).
+Proof.
+  intros [I [s Hs] D A Lg]. unfold maybe_delete_session. rewrite Hs.
+  set (purged := if s_server s || s_operator s
+                 then set_sessions (base.filter (fun kv : N * N * session => s_deleted kv.2 = false)) sv else sv).
+  (* every session still marked deleted after the conditional purge is k itself *)
+  assert (Hsub : forall k2 s2, sv_sessions purged !! k2 = Some s2 -> sv_sessions sv !! k2 = Some s2).
+  { intros k2 s2. unfold purged. destruct (s_server s || s_operator s); [|auto].
+    cbn [sv_sessions set_sessions]. rewrite map_filter_lookup_Some. tauto. }
+  assert (Hkeep : forall k2 s2, sv_sessions sv !! k2 = Some s2 -> s_deleted s2 = false -> sv_sessions purged !! k2 = Some s2).
+  { intros k2 s2 H2 Hd2. unfold purged. destruct (s_server s || s_operator s); [|auto].
+    cbn [sv_sessions set_sessions]. rewrite map_filter_lookup_Some. auto. }
+  assert (Honly : forall k2 s2, sv_sessions purged !! k2 = Some s2 -> s_deleted s2 = true -> k2 = k).
+  { intros k2 s2 H2 Hd2. unfold purged in H2. destruct (s_server s || s_operator s) eqn:Hp.
+    - cbn [sv_sessions set_sessions] in H2. apply map_filter_lookup_Some in H2. destruct H2 as [_ H2]. cbn in H2. congruence.
+    - destruct (D _ _ H2 Hd2) as [->|(sp & Hsp & Hpp)]; [reflexivity|]. rewrite Hs in Hsp. injection Hsp as <-. congruence. }
+  assert (Hrest : sv_nicks purged = sv_nicks sv /\ sv_channels purged = sv_channels sv).
+  { unfold purged. destruct (s_server s || s_operator s); split; reflexivity. }
+  destruct Hrest as [Hn Hc].
+  set (final := if s_deleted s then set_sessions (delete k) purged else purged).
+  assert (Hsub' : forall k2 s2, sv_sessions final !! k2 = Some s2 -> sv_sessions sv !! k2 = Some s2 /\ s_deleted s2 = false).
+  { intros k2 s2. unfold final. destruct (s_deleted s) eqn:Hds.
+    - cbn [sv_sessions set_sessions]. intros H2. apply lookup_delete_Some in H2. destruct H2 as [Hne H2].
+      split; [now apply Hsub|]. destruct (s_deleted s2) eqn:Hd2; [|reflexivity]. exfalso. apply Hne. symmetry. eapply Honly; eauto.
+    - intros H2. split; [now apply Hsub|]. destruct (s_deleted s2) eqn:Hd2; [|reflexivity].
+      pose proof (Honly _ _ H2 Hd2) as ->. apply Hsub in H2. congruence. }
+  assert (Hkeep' : forall k2 s2, sv_sessions sv !! k2 = Some s2 -> s_deleted s2 = false -> sv_sessions final !! k2 = Some s2).
+  { intros k2 s2 H2 Hd2. unfold final. destruct (s_deleted s) eqn:Hds; [|auto].
+    cbn [sv_sessions set_sessions]. rewrite lookup_delete_ne; [auto|]. intros <-. congruence. }
+  assert (Hfin : sv_nicks final = sv_nicks sv /\ sv_channels final = sv_channels sv).
+  { unfold final. destruct (s_deleted s); split; assumption. }
+  destruct Hfin as [Hn' Hc'].
+  split.
+  - eapply (InvM_other (set_sessions (fun _ => sv_sessions final) sv)); [reflexivity|exact Hn'|exact Hc'|].
+    apply InvM_restrict; [exact I| |exact Hkeep']. intros k2 s2 H2. apply (Hsub' _ _ H2).
+  - intros k2 s2 H2. apply (Hsub' _ _ H2).
+  - intros k2 s2 H2 Hk0. apply Hsub' in H2. eapply A; [apply H2|exact Hk0].
+  - intros k2 s2 H2. apply Hsub' in H2. eapply Lg. apply H2.
+Qed.
+
+Lemma EInv_other sv sv' :
+  sv_sessions sv' = sv_sessions sv -> sv_nicks sv' = sv_nicks sv -> sv_channels sv' = sv_channels sv ->
+  EInv sv -> EInv sv'.
+Proof.
+  intros Hs Hn Hc [I L A Lg]. split.
+  - eapply InvM_other; eauto.
+  - intros k s. rewrite Hs. apply L.
+  - intros k s. rewrite Hs. apply A.
+  - intros k s. rewrite Hs. apply Lg.
+Qed.
+
+Lemma Fine_other k sv sv' :
+  sv_sessions sv' = sv_sessions sv -> sv_nicks sv' = sv_nicks sv -> sv_channels sv' = sv_channels sv ->
+  Fine k sv -> Fine k sv'.
+Proof.
+  intros Hs Hn Hc [I P D A Lg]. split.
+  - eapply InvM_other; eauto.
+  - unfold present. now rewrite Hs.
+  - intros k2 s2. rewrite Hs. intros H2 Hd2. destruct (D _ _ H2 Hd2) as [->|(sp & Hsp & Hp)]; [now left|right].
+    exists sp. rewrite Hs. auto.
+  - intros k2 s2. rewrite Hs. apply A.
+  - intros k2 s2. rewrite Hs. apply Lg.
+Qed.
+
+(* ---- one log entry --------------------------------------------------------------------------------- *)
+(* what the HTTP API can put into the log, relative to the state the entry is applied in *)
+Definition wf_entry (sv : server) (en : entry) : Prop :=
+  match en with
+  | ECreate id _ auth => 8 <= slen auth /\ sv_sessions sv !! (id, 0%N) = None
+  | EMessage _ _ session _ _ data => line_ok sv (session, 0%N) (parse_message data)
+  | _ => True
+  end.
+
+Definition entry_result (o : outcome) : option server :=
+  match o with
+  | OOk sv _ => Some sv | OSessionLimit sv => Some sv | OSkip sv => Some sv
+  | OPanic _ => None | OGap _ => None
+  end.
+
+Lemma update_last_cmid_EInv k ts data cmid sv sv' :
+  EInv sv -> update_last_cmid k ts data cmid sv = Some sv' ->
+  EInv sv' /\ present sv' k /\ sv_nicks sv' = sv_nicks sv /\
+  (forall k2, sv_sessions sv' !! k2 = None <-> sv_sessions sv !! k2 = None) /\
+  (forall s, sv_sessions sv !! k = Some s -> exists s', sv_sessions sv' !! k = Some s' /\ s_server s' = s_server s).
+Proof.
+  intros E H. unfold update_last_cmid in H. destruct (sv_sessions sv !! k) as [s|] eqn:Hs; [|discriminate].
+  injection H as <-.
+  set (f := ss_activity ts (if has_prefix "ping" (to_lower data) then s_lastNonPing s else ts) cmid).
+  assert (Hl : forall k2, sv_sessions (set_sessions (<[k := f s]>) sv) !! k2 = (if bool_decide (k = k2) then f else id) <$> (sv_sessions sv !! k2)).
+  { intros k2. cbn [sv_sessions set_sessions]. destruct (decide (k = k2)) as [<-|Hne].
+    - rewrite lookup_insert, bool_decide_true, Hs by reflexivity. reflexivity.
+    - rewrite lookup_insert_ne, bool_decide_false by assumption. now destruct (sv_sessions sv !! k2). }
+  assert (Heq : sv_sessions (set_sessions (<[k := f s]>) sv) = sv_sessions (upd_sess_state k f sv)).
+  { unfold upd_sess_state. cbn [sv_sessions set_sessions]. now rewrite Hs. }
+  destruct E as [I L A Lg]. split; [split|split; [|split; [|split]]].
+  - eapply (InvM_other (upd_sess_state k f sv)); [exact Heq|reflexivity|reflexivity|].
+    unfold upd_sess_state. apply InvM_updSess_same; [intros s0; repeat split|exact I].
+  - intros k2 s2. rewrite Hl. destruct (sv_sessions sv !! k2) as [s0|] eqn:Hs0; [|discriminate].
+    cbn. intros [= <-]. pose proof (L _ _ Hs0). destruct (bool_decide (k = k2)); assumption.
+  - intros k2 s2. rewrite Hl. destruct (sv_sessions sv !! k2) as [s0|] eqn:Hs0; [|discriminate].
+    cbn. intros [= <-] Hk0. pose proof (A _ _ Hs0 Hk0). destruct (bool_decide (k = k2)); assumption.
+  - intros k2 s2. rewrite Hl. destruct (sv_sessions sv !! k2) as [s0|] eqn:Hs0; [|discriminate].
+    cbn. intros [= <-]. pose proof (Lg _ _ Hs0). destruct (bool_decide (k = k2)); assumption.
+  - unfold present. rewrite Hl, bool_decide_true, Hs by reflexivity. now eexists.
+  - reflexivity.
+  - intros k2. rewrite Hl. destruct (sv_sessions sv !! k2); split; intros; try discriminate; reflexivity.
+  - intros s0 Hs0. injection Hs0 as <-. exists (f s).
+    rewrite Hl, bool_decide_true, Hs by reflexivity. split; reflexivity.
+Qed.
+
+Lemma run_handler_ok e k ra ircmsg sv msgid finish :
+  EInv sv -> present sv k -> snd k = 0%N -> line_ok sv k ircmsg ->
+  (forall sv', Fine k sv' -> EInv (finish sv')) ->
+  exists sv' out, run_handler sv msgid (process_message e k ra ircmsg) finish = OOk sv' out /\ EInv sv'.
+Proof.
+  intros E P Hk0 Hl Hfin. unfold run_handler.
+  pose proof (process_message_ok e k ra ircmsg sv (RCtx msgid []) E P Hk0 Hl) as H. unfold wp in H.
+  destruct (process_message e k ra ircmsg sv (RCtx msgid [])) as [[[[] sv'] r']|?|?]; [|contradiction|contradiction].
+  eexists _, _. split; [reflexivity|]. apply Hfin. exact H.
+Qed.
+
+Theorem apply_entry_ok e sv en :
+  EInv sv -> wf_entry sv en ->
+  exists sv', entry_result (apply_entry e sv en) = Some sv' /\ EInv sv'.
+Proof.
+  intros E Hwf. destruct en as [id un auth|id un session q|id un session cmid ra data|id un session cmid data|id un rev parsed];
+    cbn [apply_entry].
+  - (* CreateSession *)
+    destruct Hwf as [Hauth Hfresh]. unfold create_session, bindM, getS, retM, modS.
+    destruct (_ && _); [eexists; split; [reflexivity|exact E]|].
+    cbn. eexists. split; [reflexivity|]. destruct E as [I L A Lg]. split.
+    + apply InvM_create; auto.
+    + intros k s. cbn [sv_sessions set_sessions]. destruct (decide ((id, 0%N) = k)) as [<-|Hne].
+      * rewrite lookup_insert. intros [= <-]. reflexivity.
+      * rewrite lookup_insert_ne by assumption. apply L.
+    + intros k s. cbn [sv_sessions set_sessions]. destruct (decide ((id, 0%N) = k)) as [<-|Hne].
+      * rewrite lookup_insert. intros [= <-] _. exact Hauth.
+      * rewrite lookup_insert_ne by assumption. apply A.
+    + intros k s. cbn [sv_sessions set_sessions]. destruct (decide ((id, 0%N) = k)) as [<-|Hne].
+      * rewrite lookup_insert. intros [= <-]. reflexivity.
+      * rewrite lookup_insert_ne by assumption. apply Lg.
+  - (* DeleteSession *)
+    destruct (sv_sessions sv !! (session, 0%N)) as [s|] eqn:Hs; [|eexists; split; [reflexivity|exact E]].
+    destruct (parse_quit q) as [ps Hq]. rewrite Hq.
+    destruct (run_handler_ok e (session, 0%N) "" (Some (IMsg None "QUIT" ps)) sv id
+                (fun sv' => maybe_delete_session (session, 0%N) (set_lastProcessed (id, 0%N) sv')) E) as (sv' & out & -> & E');
+      [now exists s|reflexivity| |intros sv' F; apply maybe_delete_session_ok; apply (Fine_other _ sv'); [reflexivity|reflexivity|reflexivity|exact F]|].
+    + (* a QUIT line conforms *)
+      intros s0 m0 _ _ [= <-]. split; cbn; intros H; try discriminate; repeat (destruct H as [H|H]; [discriminate|]); contradiction.
+    + eexists. split; [reflexivity|exact E'].
+  - (* IRCFromClient *)
+    destruct (update_last_cmid (session, 0%N) (timestamp id un) data cmid sv) as [sv1|] eqn:Hu;
+      [|eexists; split; [reflexivity|exact E]].
+    destruct (update_last_cmid_EInv _ _ _ _ _ _ E Hu) as (E1 & P1 & Hn1 & Hdom1 & Hsrv1).
+    destruct (run_handler_ok e (session, 0%N) ra (parse_message data) sv1 id
+                (fun sv' => maybe_delete_session (session, 0%N) (set_lastProcessed (session, 0%N) sv')) E1 P1) as (sv' & out & -> & E');
+      [reflexivity| |intros sv' F; apply maybe_delete_session_ok; apply (Fine_other _ sv'); [reflexivity|reflexivity|reflexivity|exact F]|].
+    + intros s1 m1 Hs1 Hsv1 Hm1. cbn [wf_entry] in Hwf.
+      destruct (sv_sessions sv !! (session, 0%N)) as [s|] eqn:Hs.
+      * destruct (Hsrv1 s eq_refl) as (s' & Hs' & Hsame). rewrite Hs1 in Hs'. injection Hs' as <-.
+        eapply conforming_transfer; [exact Hn1|exact Hdom1|]. eapply Hwf; eauto; congruence.
+      * exfalso. destruct (Hdom1 (session, 0%N)) as [_ Hd]. rewrite (Hd Hs) in Hs1. discriminate.
+    + eexists. split; [reflexivity|exact E'].
+  - (* message of death *)
+    destruct (update_last_cmid (session, 0%N) (timestamp id un) data cmid sv) as [sv1|] eqn:Hu.
+    + destruct (update_last_cmid_EInv _ _ _ _ _ _ E Hu) as (E1 & _). eexists. split; [reflexivity|exact E1].
+    + eexists. split; [reflexivity|exact E].
+  - (* Config *)
+    destruct parsed as [g|]; (eexists; split; [reflexivity|]); [|exact E].
+    eapply EInv_other; [| | |exact E]; reflexivity.
+Qed.
+
+(* ---- histories -------------------------------------------------------------------------------------- *)
+Fixpoint run (e : env) (sv : server) (es : list entry) : option server :=
+  match es with
+  | [] => Some sv
+  | en :: r => match entry_result (apply_entry e sv en) with
+               | Some sv' => run e sv' r
+               | None => None
+               end
+  end.
+
+(* a history is well-formed if every entry is well-formed in the state it is applied in *)
+Fixpoint wf_history (e : env) (sv : server) (es : list entry) : Prop :=
+  match es with
+  | [] => True
+  | en :: r => wf_entry sv en /\
+               forall sv', entry_result (apply_entry e sv en) = Some sv' -> wf_history e sv' r
+  end.
+
+Lemma EInv_init net : EInv (init_server net).
+Proof.
+  split; [apply InvM_init| | |]; intros k s H; cbn [init_server sv_sessions] in H; rewrite lookup_empty in H; discriminate.
+Qed.
+
+Theorem run_ok e sv es :
+  EInv sv -> wf_history e sv es -> exists sv', run e sv es = Some sv' /\ EInv sv'.
+Proof.
+  revert sv. induction es as [|en es IH]; intros sv E Hwf; cbn [run].
+  - now exists sv.
+  - destruct Hwf as [Hen Hrest]. destruct (apply_entry_ok e sv en E Hen) as (sv1 & Hr & E1).
+    rewrite Hr. apply IH; [exact E1|]. apply Hrest. exact Hr.
+Qed.
+
+(* ---- what the invariant says in the words of the property ------------------------------------------- *)
+Corollary unique_nicks sv k1 k2 s1 s2 :
+  EInv sv -> sv_sessions sv !! k1 = Some s1 -> sv_sessions sv !! k2 = Some s2 ->
+  s_nick s1 <> "" -> nick_to_lower (s_nick s1) = nick_to_lower (s_nick s2) -> k1 = k2.
+Proof.
+  intros [I L _ _] H1 H2 Hn E.
+  assert (Hn2 : s_nick s2 <> "").
+  { intros E2. rewrite E2 in E. apply nick_to_lower_nonempty in Hn. apply Hn. rewrite E. reflexivity. }
+  pose proof (i_idx_complete sv I _ _ H1 (L _ _ H1) Hn) as C1.
+  pose proof (i_idx_complete sv I _ _ H2 (L _ _ H2) Hn2) as C2.
+  rewrite E in C1. congruence.
+Qed.
+
+Corollary membership_symmetric sv k s lc :
+  EInv sv -> sv_sessions sv !! k = Some s ->
+  (lc ∈ s_channels s <-> exists c, sv_channels sv !! lc = Some c /\ is_Some (c_nicks c !! nick_to_lower (s_nick s)) /\
+                                    sv_nicks sv !! nick_to_lower (s_nick s) = Some k).
+Proof.
+  intros [I L _ _] Hs. split.
+  - intros Hin. destruct (i_memb_s sv I _ _ _ Hs (L _ _ Hs) Hin) as (c & Hc & Hm). exists c. split; [exact Hc|]. split; [exact Hm|].
+    destruct Hm as [p Hp]. eapply member_key_acting; eauto.
+  - intros (c & Hc & [p Hp] & Hk). destruct (i_memb_c sv I _ _ _ _ Hc Hp) as (k' & s' & Hk' & Hs' & Hin).
+    rewrite Hk in Hk'. injection Hk' as <-. rewrite Hs in Hs'. injection Hs' as <-. exact Hin.
+Qed.
+
+Corollary channels_nonempty_members_live sv lc c :
+  EInv sv -> sv_channels sv !! lc = Some c ->
+  c_nicks c <> ∅ /\ chan_to_lower (c_name c) = lc /\
+  forall n p, c_nicks c !! n = Some p ->
+    exists k s, sv_nicks sv !! n = Some k /\ sv_sessions sv !! k = Some s /\ s_deleted s = false /\
+                nick_to_lower (s_nick s) = n /\ lc ∈ s_channels s.
+Proof.
+  intros [I L _ _] Hc. destruct (i_chan sv I _ _ Hc) as [Hne Hname]. split; [exact Hne|]. split; [exact Hname|].
+  intros n p Hp. destruct (i_memb_c sv I _ _ _ _ Hc Hp) as (k & s & Hk & Hs & Hin).
+  destruct (i_idx_sound sv I _ _ Hk) as (_ & s' & Hs' & Hd & Hl). rewrite Hs in Hs'. injection Hs' as <-.
+  exists k, s. auto.
+Qed.
+
+(* the model never reports a panic or leaves its domain on a well-formed history *)
+Theorem no_panic e net es :
+  wf_history e (init_server net) es -> exists sv', run e (init_server net) es = Some sv' /\ EInv sv'.
+Proof. intros H. apply run_ok; [apply EInv_init|exact H]. Qed.
+
+Theorem entry_no_panic e sv en site :
+  EInv sv -> wf_entry sv en -> apply_entry e sv en <> OPanic site /\ apply_entry e sv en <> OGap site.
+Proof.
+  intros E Hwf. destruct (apply_entry_ok e sv en E Hwf) as (sv' & Hr & _).
+  split; intros Heq; rewrite Heq in Hr; discriminate.
+Qed.
